@@ -368,6 +368,17 @@ func (c *ClientConn) maybePrepareAndExecute(request Request, raw *frame.RawFrame
 					prepare:     prepareFrame,
 					origRequest: request,
 				})
+				if err != nil {
+					// The prepare request couldn't be sent on this connection (it's closing or out of streams). The
+					// request wasn't executed, so it moves on to the next host instead of the client being handed an
+					// unprepared error for a query it did prepare.
+					c.logger.Error("failed to send prepare request after receiving an unprepared error response",
+						zap.String("host", c.conn.RemoteAddr().String()),
+						zap.String("id", id),
+						zap.Error(err))
+					request.Execute(true)
+					return true
+				}
 			}
 			if err != nil {
 				c.logger.Error("failed to prepare query after receiving an unprepared error response",
